@@ -373,6 +373,18 @@ def c07_check(res, known, args):
                          "rule": "marker sites regenerated from the Go source on every run and compared with the recorded table; every emitted file of the six targets scanned for "
                                  "marker text; completeness of the extracted IR (every declared field has its member, its encode and its decode step) evaluated by complete_ir in Coq; "
                                  "gofmt -e and python ast.parse on every Go/Python file; javac and g++ -fsyntax-only against API stubs in the thorough tier"})
+    if res.tier != "quick" or os.environ.get("VERIF_EXEC"):
+        # the emitted Go is really compiled (go build against the stand-in runtime, harness/goexec.py): the import block
+        # must list only packages the file uses (repaired defect, see 'fixed' in known_findings.json)
+        rc2, out2, grep_, cached2 = run_report("goexec.py", ["--programs", "all"], "goexec_report.json", 3000)
+        if grep_ is None:
+            res.violation({"kind": "harness", "what": "harness/goexec.py did not complete", "output": out2[-2000:]}, found=False)
+        else:
+            un = grep_.get("unused_imports_as_emitted") or {}
+            if un:
+                res.violation({"kind": "deviation", "what": "emitted Go files import packages they do not use (the Go compiler rejects them): %s" % json.dumps(un)[:600],
+                               "oracle": "harness/goexec.py (go build of the emitted files)"}, found=True)
+            res.coverage["go_build"] = {"cached": cached2, "verdict_counts": grep_.get("counts"), "unused_imports_as_emitted": un}
     res.assumptions += ["no rustc/luac check (no stub crates, luac absent); Rust and Lua files are covered by the strict extractors only",
                         "the stubs of harness/stubs stand for the codec runtime API"]
 
@@ -392,5 +404,85 @@ def c17_check(res, known, args):
                          "rule": "evaluations = test units (program x language x packet); distinct_nontrivial = distinct units for which a test was emitted and judged; every emitted test (Go, Rust, Java, Python, C++) is read by a strict scaffold interpreter (harness/extract_tests.py): the sample object, the "
                                  "compared members, the copy-back statements; build problems (names, types, redeclarations, imports) are derived from the emitted text; the test is "
                                  "then RUN by the self-test model (coq/Tests/SelfTest.v: encode with store-backs, decode, compare) over the IR extracted from the same compilation"})
+    if res.tier != "quick" or os.environ.get("VERIF_EXEC"):
+        # Python IS here: the emitted *_test.py modules are really run against the stand-in runtime (harness/pyexec.py);
+        # a test that fails there although the self-test model predicted Pass must be a recorded finding
+        rc2, out2, prep, cached2 = run_report("pyexec.py", ["--programs", "all"], "pyexec_report.json", 3000)
+        if prep is None:
+            res.violation({"kind": "harness", "what": "harness/pyexec.py did not complete", "output": out2[-2000:]}, found=False)
+        else:
+            rows = prep.get("selftests") or []
+            unexplained = []
+            n_rebound = n_module = 0
+            for r2 in rows:
+                if r2.get("agree") is not False or r2.get("tests_py") != "Pass":
+                    continue
+                ex = r2.get("executed") or ""
+                if "UnknownMessageKey" in ex:
+                    n_rebound += 1          # finding py-factory-rebound
+                elif "import of the test module" in ex:
+                    n_module += 1           # another packet of the module carries a recorded syntax finding (bare pad literal ...)
+                else:
+                    unexplained.append(r2)
+            if n_rebound:
+                f = next((f for f in known["findings"] if f["id"] == "py-factory-rebound"), None)
+                if f is not None:
+                    res.known.append("finding=py-factory-rebound %s (x%d emitted tests error when really run)" % (f["what"][:300], n_rebound))
+                else:
+                    unexplained += [r2 for r2 in rows if "UnknownMessageKey" in (r2.get("executed") or "")][:2]
+            for r2 in unexplained[:4]:
+                res.violation({"kind": "deviation", "what": "the emitted Python self-test %s of program %s %s when really run, the self-test model predicted Pass"
+                               % (r2.get("test"), r2.get("program"), (r2.get("executed") or "")[:400]), "program": r2.get("program"), "lang": "py",
+                               "oracle": "harness/pyexec.py"}, found=True)
+            res.coverage["python_tests_really_run"] = {"cached": cached2, "functions": len(rows), "outcomes": (prep.get("summary") or {}).get("selftest_counts"),
+                                                       "agree_with_model": sum(1 for r2 in rows if r2.get("agree") is True),
+                                                       "explained_by_factory_rebinding": n_rebound, "module_does_not_import": n_module}
     res.assumptions += ["the target toolchains and test runners are absent: 'builds' is decided by the scaffold interpreter (agrees with javac/g++ on every program where those reach the test)",
                         "the runtime behaves as IR/Sem.v says (the runtime contract)"]
+
+
+# ----------------------------------------------------------------------------------------
+# Execution oracles (Go and Python toolchains are present): a packet the proved-sound validator accepts
+# must behave as the specification says when the emitted code is really run against the stand-in runtime
+# ----------------------------------------------------------------------------------------
+
+def exec_acceptance(res, known):
+    gaps = {f["exec_gap"]: f for f in known["findings"] if "exec_gap" in f}
+    cov = {}
+    # Go
+    rc, out, rep, cached = run_report("goexec.py", ["--programs", "all"], "goexec_report.json", 3000)
+    if rep is None:
+        res.violation({"kind": "harness", "what": "harness/goexec.py did not complete", "output": out[-2000:]}, found=False)
+    else:
+        acc = rep.get("acceptance", {})
+        for v in (acc.get("violations") or [])[:4]:
+            res.violation({"kind": "codec", "what": "a Go packet the validator accepts disagrees with the wire specification when the emitted code is really executed: %s %s [%s] %s"
+                           % (v.get("program"), v.get("packet"), v.get("label"), v.get("verdict")), "detail": v.get("detail"), "program": v.get("program"),
+                           "lang": "go", "oracle": "harness/goexec.py"}, found=True)
+        for gid, g in (acc.get("model_gaps") or {}).items():
+            f = gaps.get(gid)
+            if f is not None:
+                res.known.append("finding=%s %s (x%d messages, e.g. program %s)" % (f["id"], f["what"][:300], g.get("messages", 0), (g.get("witness") or {}).get("program")))
+            else:
+                res.violation({"kind": "codec", "what": "execution of emitted Go disagrees with the model in an unrecorded way: %s" % gid, "detail": g.get("what"),
+                               "witness": g.get("witness")}, found=True)
+        for e in (rep.get("coq_errors") or [])[:1]:
+            res.violation({"kind": "proof-obligation", "what": "goexec: evaluation of the specification failed", "output": str(e)[-1500:]}, found=False)
+        cov["go"] = {"cached": cached, "counts": rep.get("counts"), "accepted_packets": acc.get("packets_accepted"), "agree_messages": acc.get("messages_agree"),
+                     "times": rep.get("times")}
+    # Python
+    rc, out, rep, cached = run_report("pyexec.py", ["--programs", "all"], "pyexec_report.json", 3000)
+    if rep is None:
+        res.violation({"kind": "harness", "what": "harness/pyexec.py did not complete", "output": out[-2000:]}, found=False)
+    else:
+        sm = rep.get("summary", {})
+        for v in ((sm.get("acceptance_a") or {}).get("failures") or [])[:4]:
+            res.violation({"kind": "codec", "what": "a Python packet the validator accepts disagrees with the wire specification when the emitted code is really executed: %s %s [%s] %s"
+                           % (v.get("program"), v.get("packet"), v.get("label"), v.get("verdict")), "detail": v.get("detail"), "program": v.get("program"),
+                           "lang": "py", "oracle": "harness/pyexec.py"}, found=True)
+        for e in (rep.get("coq_errors") or [])[:1]:
+            res.violation({"kind": "proof-obligation", "what": "pyexec: evaluation of the specification failed", "output": str(e)[-1500:]}, found=False)
+        cov["py"] = {"cached": cached, "acceptance_a": {k: v for k, v in (sm.get("acceptance_a") or {}).items() if k in ("executions", "agree")},
+                     "verdicts": sm.get("verdicts"), "selftests": sm.get("selftest_counts"), "model_disagreements": sm.get("model_disagreements")}
+    res.coverage["execution_oracles"] = cov
+    res.assumptions += ["the stand-in runtimes of harness/stubs/go and harness/pyexec_rt implement the contract of IR/Sem.v (they are small, and were checked against Sem.v on every extracted IR)"]
